@@ -52,6 +52,10 @@ enum Ty {
     ArrArrNum,
     /// array[string | array[number]]
     ArrStrOrArrNum,
+    /// array[any]
+    ArrAny,
+    /// array[array[any]]
+    ArrArrAny,
 }
 
 fn to_arg(tys: &[Ty]) -> ArgumentType {
@@ -67,6 +71,8 @@ fn to_arg(tys: &[Ty]) -> ArgumentType {
         Ty::Bool => ArgumentType::Bool,
         Ty::ArrArrNum => ArgumentType::TypedArray(Box::new(ArgumentType::TypedArray(Box::new(ArgumentType::Number)))),
         Ty::ArrStrOrArrNum => ArgumentType::TypedArray(Box::new(ArgumentType::Union(vec![ArgumentType::String, ArgumentType::TypedArray(Box::new(ArgumentType::Number))]))),
+        Ty::ArrAny => ArgumentType::TypedArray(Box::new(ArgumentType::Any)),
+        Ty::ArrArrAny => ArgumentType::TypedArray(Box::new(ArgumentType::TypedArray(Box::new(ArgumentType::Any)))),
     };
     if tys.len() == 1 {
         one(&tys[0])
@@ -88,11 +94,13 @@ fn accepts(tys: &[Ty], v: &J) -> bool {
         Ty::Bool => matches!(v, J::Bool(_)),
         Ty::ArrArrNum => matches!(v, J::Arr(a) if a.iter().all(|x| matches!(x, J::Arr(i) if i.iter().all(|y| matches!(y, J::Num(_)))))),
         Ty::ArrStrOrArrNum => matches!(v, J::Arr(a) if a.iter().all(|x| matches!(x, J::Str(_)) || matches!(x, J::Arr(i) if i.iter().all(|y| matches!(y, J::Num(_)))))),
+        Ty::ArrAny => matches!(v, J::Arr(_)),
+        Ty::ArrArrAny => matches!(v, J::Arr(a) if a.iter().all(|x| matches!(x, J::Arr(_)))),
     })
 }
 
 fn gen_tys(src: &mut Src) -> Vec<Ty> {
-    let all = [Ty::Any, Ty::Number, Ty::Str, Ty::Array, Ty::Object, Ty::Expref, Ty::ArrNum, Ty::Null, Ty::Bool, Ty::ArrArrNum, Ty::ArrStrOrArrNum, Ty::ArrNum, Ty::ArrArrNum];
+    let all = [Ty::Any, Ty::Number, Ty::Str, Ty::Array, Ty::Object, Ty::Expref, Ty::ArrNum, Ty::Null, Ty::Bool, Ty::ArrArrNum, Ty::ArrStrOrArrNum, Ty::ArrNum, Ty::ArrArrNum, Ty::ArrAny, Ty::ArrArrAny, Ty::ArrAny, Ty::Any];
     let n = if src.chance(60) { 2 } else { 1 };
     (0..n).map(|_| *src.pick(&all)).collect()
 }
@@ -492,6 +500,70 @@ fn apply_expref(src: &mut Src, st: &mut Stats, _env: &Env) -> CaseResult {
     Ok(())
 }
 
+/// A custom function called from every kind of surrounding construct: it is
+/// invoked exactly when (and as often as) the call is evaluated, with the
+/// evaluated argument.  `rec(x)` logs and returns its argument, which is what
+/// the built-in `not_null(x)` computes, so the same text with `not_null` on the
+/// default runtime (and the reference evaluator's count of calls) is the model.
+fn call_contexts(src: &mut Src, st: &mut Stats, _env: &Env) -> CaseResult {
+    let contexts = [
+        "{C}", "z | {C}[]", "z | {C}.*", "{C}[]", "{C}[*]", "{C}.*", "[{C}]", "{k: {C}}", "xs[*].{C}", "objs[*].{C}", "z || {C}", "z && {C}", "n && {C}", "n || {C}", "!{C}", "{C} == {C}", "xs[?{C}]",
+        "objs[?{C} == `1`]", "{C} | [0]", "z | {C}", "z.{C}", "o.{C}", "type({C})", "length(to_array({C}))", "map(&{C}, xs)", "sort_by(objs, &{C})", "z | {C}[0]", "z | [{C}][]", "(z | {C})[]", "z[*].{C}",
+        "z.*.{C}", "[z][*].{C}", "[z, n][*].{C}", "z | {C}[?@]", "z | {C}[1:]", "z | ({C})[]", "z | [{C}, {C}]", "z | {k: {C}}.k[]", "n | {C}[]", "xs | {C}[]", "z | {C} | []", "[z | {C}[], n | {C}.*]",
+        "z | to_array({C})[]", "objs[*].[z | {C}[]]", "xs[?z | {C}[]]", "z | {C}[] || `1`", "z | ({C}[] || `1`)", "z | nope({C})", "z | {C}[::0]",
+    ];
+    let calls = ["rec(@)", "rec(n)", "rec(a)", "rec(xs)", "rec(o)", "rec(z)", "rec(`1`)", "rec(@.n)", "rec(objs)", "rec(objs[0])", "rec([n, s])", "rec(rec(xs))"];
+    let ctx = *src.pick(&contexts);
+    let call = *src.pick(&calls);
+    let text = ctx.replace("{C}", call);
+    let model_text = text.replace("rec(", "not_null(");
+    let count: Arc<Mutex<usize>> = Arc::new(Mutex::new(0));
+    let mut rt = Runtime::new();
+    rt.register_builtin_functions();
+    let c2 = count.clone();
+    rt.register_function(
+        "rec",
+        Box::new(move |args: &[Rcvar], _ctx: &mut Context<'_>| {
+            *c2.lock().unwrap() += 1;
+            Ok(args.first().cloned().unwrap_or_else(|| Rcvar::new(Variable::Null)))
+        }),
+    );
+    st.eval();
+    let case = json!({"expression": text, "model_expression": model_text, "document": DOC});
+    let compiled = rt.compile(&text).map_err(|e| Failure::new("call-contexts", "harness-compile", e.to_string(), case.clone()))?;
+    let got = catch(std::panic::AssertUnwindSafe(|| compiled.search(Variable::from_json(DOC).unwrap()))).map_err(|p| Failure::new("call-contexts", "panic", p, case.clone()))?;
+    let calls_seen = *count.lock().unwrap();
+    let want = crate::imp::search_text(&model_text, DOC);
+    match (&want, &got) {
+        (crate::imp::ImpOut::Ok(w), Ok(g)) if var_to_j(g).deep_eq(w) => {}
+        (crate::imp::ImpOut::SearchErr(e), Err(g)) if classify(g).class == e.class => {}
+        (w, g) => {
+            return Err(Failure::new(
+                "call-contexts",
+                "custom-function-call-differs-from-builtin-call",
+                format!("{} gives {:?} but {} gives {}", text, g.as_ref().map(|v| v.to_string()).map_err(|e| classify(e).detail), model_text, w.brief()),
+                case,
+            ))
+        }
+    }
+    // how often the function ran: the reference evaluator's count of not_null calls
+    if let Ok(tree) = refparse::parse(&model_text, Mode::Strict) {
+        let doc = J::parse(DOC).unwrap();
+        let mut cx = refeval::Ctx::default();
+        if refeval::eval(&tree, &doc, &mut cx).is_ok() && cx.ambiguous.is_empty() {
+            let want_calls = cx.calls.iter().filter(|c| **c == "not_null").count();
+            if want_calls != calls_seen {
+                return Err(Failure::new("call-contexts", "custom-function-invocation-count", format!("{} invoked the function {} times, the rules say {}", text, calls_seen, want_calls), case));
+            }
+            st.class(if want_calls == 0 { "context:not-evaluated" } else { "context:evaluated" });
+        }
+    }
+    if st.nontrivial(&text) {
+        st.sample(|| json!({"expression": text, "invocations": calls_seen}));
+    }
+    Ok(())
+}
+
 pub fn property() -> Property {
     Property {
         id: "C15",
@@ -503,6 +575,7 @@ pub fn property() -> Property {
         minimise: None,
         subs: vec![
             Sub::Bytes(BytesSub { name: "arg-order", f: arg_order, max_len: 200, quick: Budget { threads: 4, cases: 6000 }, thorough: Budget { threads: 16, cases: 60_000 }, keep_unreproducible: false }),
+            Sub::Bytes(BytesSub { name: "call-contexts", f: call_contexts, max_len: 64, quick: Budget { threads: 4, cases: 3000 }, thorough: Budget { threads: 16, cases: 40_000 }, keep_unreproducible: false }),
             Sub::Bytes(BytesSub { name: "apply-expref", f: apply_expref, max_len: 600, quick: Budget { threads: 4, cases: 6000 }, thorough: Budget { threads: 16, cases: 60_000 }, keep_unreproducible: false }),
             Sub::Bytes(BytesSub { name: "history", f: history, max_len: 600, quick: Budget { threads: 8, cases: 4500 }, thorough: Budget { threads: 16, cases: 80_000 }, keep_unreproducible: false }),
         ],
